@@ -16,6 +16,15 @@ static void phase_cb(struct hwloc_topology *t, int phase) { hwv_dump_raw(stdout,
 extern void (*hwloc_verif_insert_cb)(struct hwloc_topology *topology, int when, struct hwloc_obj *root, struct hwloc_obj *obj, struct hwloc_obj *result);
 static void insert_cb(struct hwloc_topology *t, int when, struct hwloc_obj *root, struct hwloc_obj *obj, struct hwloc_obj *result)
 { hwv_dump_insert(stdout, t, when, root, obj, result); }
+/* phases 3: light trace, for inputs too large to print the whole tree around every insertion */
+static void insert_cb_light(struct hwloc_topology *t, int when, struct hwloc_obj *root, struct hwloc_obj *obj, struct hwloc_obj *result)
+{
+  static int in_find_parent = 0;
+  (void)result;
+  if (when == 0 && !in_find_parent && root == hwloc_get_root_obj(t)) hwv_dump_request(stdout, t, 20, obj);
+  else if (when == 2) { hwv_dump_request(stdout, t, 22, obj); in_find_parent = 1; }
+  else if (when == 3) in_find_parent = 0;
+}
 
 /* The Linux backend is about to read the CPU topology from sysfs: print what it will see (file contents in hex),
  * for the model of look_sysfscpu (Topo/LinuxCpu.v).  Same access path as the backend: relative to root_fd. */
@@ -94,7 +103,7 @@ int main(void)
       /* phases 1|0 : print the raw tree at the phase boundaries of hwloc_discover (needs the HWLOC_VERIF hook) */
 #ifdef HWLOC_VERIF
       hwloc_verif_phase_cb = atoi(line + 7) ? phase_cb : NULL;
-      hwloc_verif_insert_cb = atoi(line + 7) >= 2 ? insert_cb : NULL;   /* phases 2: also trace every insertion by cpuset */
+      hwloc_verif_insert_cb = atoi(line + 7) == 2 ? insert_cb : atoi(line + 7) >= 3 ? insert_cb_light : NULL;   /* phases 2: trace every insertion by cpuset with the tree around it; 3: only the objects handed to the core */
       if (&hwloc_verif_linuxcpu_cb) hwloc_verif_linuxcpu_cb = atoi(line + 7) >= 2 ? linuxcpu_cb : NULL;   /* hook absent in older trees */
       printf("phases rc=0\n");
 #else
